@@ -111,6 +111,7 @@ pub fn run<'a>(cfg: &'a Cfg, hp: HP, extra_jobs: ExtraJobs<'a>) -> i32 {
     add_kind!(BcddK, 2);
     add_kind!(ZbddK, 3);
     extra_jobs(cfg, &mut jobs, &mut names);
+    crate::fzrun::add_jobs(cfg, hp.prop, &mut jobs, &mut names);
     let outs = run_jobs(&mut jobs, cfg.par, cfg.t(900, 7200));
     drop(jobs);
     let mut total = Report::default();
@@ -154,7 +155,7 @@ pub fn c05(cfg: &Cfg) -> i32 {
             shards_q: 4,
             shards_t: 12,
             nontrivial: |s| s.gc_with_live > 0 && s.gc_removed > 0,
-            rule: "proptest histories biased to clone/drop (also on another thread)/gc/churn/rebuild for BDD/BCDD/ZBDD. After every step Audit B runs under the exclusive lock: for every stored node, ref_count() == number of live handles (pool + substitution objects) + stored parent edges + manager-internal references (ZBDD tautology chain, recomputed structurally). Around every gc(): the number of nodes unreachable from handles before == gc()'s return value == drop in num_inner_nodes, nothing unreachable remains, every pooled handle still has its table. The final DropAll+gc baseline/capacity probe runs as an extra job. Non-trivial = history with a gc that removed >=1 node while >=1 handle stayed alive.",
+            rule: "proptest histories biased to clone/drop (also on another thread)/gc/churn/rebuild for BDD/BCDD/ZBDD. After every step Audit B runs under the exclusive lock: for every stored node, ref_count() == number of live handles (pool + substitution objects) + stored parent edges + manager-internal references (ZBDD tautology chain, recomputed structurally). Around every gc(): the number of nodes unreachable from handles before == gc()'s return value == drop in num_inner_nodes, nothing unreachable remains, every pooled handle still has its table. The final DropAll+gc baseline/capacity probe runs as an extra job. COVERAGE-GUIDED FUZZING: libFuzzer target `history` (harness/fuzz; decoder in fz.rs): byte streams decoded into the same operation language (without add_vars) executed on ONE persistent 5-variable manager per kind with all audits (canonicity, structure, reference counts, node counts) after every step; afterwards every handle is dropped and gc() must return the manager to its initial node count. Quick tier: saved inputs; thorough tier: 3 campaigns under AddressSanitizer with debug assertions. Non-trivial = history with a gc that removed >=1 node while >=1 handle stayed alive.",
             assumptions: vec!["apply cache holds borrowed (uncounted) edges and is cleared by gc".into()],
             inner_cap: 1 << 14,
         },
